@@ -2,7 +2,7 @@
 import random
 from fractions import Fraction
 from . import core, sketchcheck
-from .sketchgen import Builder, mapspec, STORES, rand_values, EPS_FP, order_stats
+from .sketchgen import Builder, mapspec, STORES, rand_values, EPS_FP, order_stats, spec_list
 from .core import f2h, parse_F, h2f
 
 KINDS = STORES + ["low:8", "high:8", "low:64", "high:2048"]
@@ -94,7 +94,7 @@ def build(rng, facts, name):
 def run(tier, seed):
     rng = random.Random(seed)
     ok, log = core.build_vrun()
-    specs = [mapspec(rng)[0] for _ in range(12 if tier == "quick" else 50)]
+    specs = spec_list(rng, 12 if tier == "quick" else 50)
     facts = sketchcheck.learn_specs("C12", specs) if ok else {}
     n = 400 if tier == "quick" else 10000
     builders = [build(rng, facts, "h%d" % i) for i in range(n)] if facts else []
